@@ -6,6 +6,7 @@ package state
 import (
 	"errors"
 	"fmt"
+	"sort"
 	"strings"
 
 	memdb "github.com/hashicorp/go-memdb"
@@ -1231,7 +1232,16 @@ func validateProposedConfigEntryInServiceGraph(
 		svcTopNodeType              = make(map[structs.ServiceID]string)
 		exportedServicesByPartition = make(map[string]map[structs.ServiceName]struct{})
 	)
+	// Visit the chains in a fixed order: the first chain that fails decides
+	// the error returned for the write, which must not depend on map order.
+	chainIDs := make([]structs.ServiceID, 0, len(checkChains))
 	for serviceID := range checkChains {
+		chainIDs = append(chainIDs, serviceID)
+	}
+	sort.Slice(chainIDs, func(i, j int) bool {
+		return chainIDs[i].String() < chainIDs[j].String()
+	})
+	for _, serviceID := range chainIDs {
 		chain, err := testCompileDiscoveryChain(tx, serviceID.ID, overrides, &serviceID.EnterpriseMeta)
 		if err != nil {
 			return err
